@@ -83,6 +83,8 @@ def strategy(ctx) -> st.SearchStrategy:
             plan = draw(c08.plan_strategy(model, always=True, weights={"def": 1, "simple": 1, "cond": 6, "clause": 5}))
             # the documented ValueError for overlapping names is C08's subject
             plan["only"] = [n for n in plan["only"] if n not in plan["no"] and "$M." + n not in plan["ignore"]]
+            if draw(st.integers(0, 9)) < 6:  # only_cover mostly selects one small scope and leaves few goals
+                plan["only"] = []
         return {"module": model, "plan": plan, "schedule": draw(schedule)}
 
     return cases()
